@@ -308,7 +308,18 @@ def run(case, tape=None):
                 raise OracleFail('partition', dict(rank=rank, why='the partition tables changed after getBlockFromDict'))
             check_accessors(grid, G, eta, case, rank)
         for nxt in walk[1:]:
+            # an answer asked for in one layout and read after the layout changed still belongs to the layout it
+            # was asked in
+            lay_was = grid.getLayout(grid.currentLayout)
+            held = [grid.getCoords(i) for i in range(ndim)]
+            want_was = [[float(x) for x in eta[lay_was.dims_order[i]][int(lay_was.starts[i]):int(lay_was.ends[i])]]
+                        for i in range(ndim)]
             grid.setLayout(nxt)
+            for i in range(ndim):
+                got = [float(v) for _, v in held[i]]
+                if got != want_was[i]:
+                    raise OracleFail('accessor', dict(rank=rank, axis=i, why='getCoords asked before a layout change answered for the new layout',
+                                                      got=got[:4], want=want_was[i][:4]))
             check_accessors(grid, G, eta, case, rank)
         if len(walk) > 1:
             # the accessors must also follow the layout through save / layout change / restore
